@@ -75,6 +75,24 @@ CHECKS = {
             "Positioners and routers as stated by the property; judged only when the reference is stable.", "8/C17"),
 }
 
+L23 = ("; a sample of the same calls is recorded stage by stage (hook H1) and validated by PipelineTrace.tla: phase contracts (layer 2) and "
+       "exact prediction of every phase's result by the implementation-shaped TLA+ models CycleBreakOps, NetSimplexOps, LongestPathOps, WMedianOps, "
+       "PositionOps, NSPositionOps, BKOps, RouteOps (layer 3; deviations are DRIFT diagnostics, verdicts stay with layer 1)")
+MODELS = {
+    "C02": "TLC exhaustive: Pipeline.tla composition theorem T1 (edge-list surgery of the seven stages returns the input's edge bag)",
+    "C04": "TLC exhaustive: Position.tla (SinkColoring / VAlign / PackRight on every small layered graph), Position.tla + NSPositionOps (the network-simplex positioner: auxiliary graph, weighted simplex, hbalance), NetSimplex.tla in positioner mode (weights, minimum lengths)",
+    "C05": "TLC exhaustive: Position.tla + RouteOps!BuildRects6 (the spline router's corridors are well-formed in the non-degenerate class)",
+    "C10": "TLC exhaustive: NetSimplex.tla (every connected DAG multigraph of the bound, one loop iteration per step: Feasible, TreeIsSpanning, CutValuesRight, Optimal vs brute force, Contiguous)",
+    "C11": "TLC exhaustive: LongestPath.tla (every DAG of the bound x every visit order of the nodes)",
+    "C12": "TLC exhaustive: WMedian.tla on every small 3-layer graph (PermutationPerLayer, ReportedIsActual)",
+    "C13": "TLC exhaustive: WMedian.tla on every rooted tree of 5/6 nodes x orientation x edge order (TreePlanar), Position.tla + NSPositionOps",
+    "C14": "TLC exhaustive: CycleBreak.tla (both breakers on every connected multigraph of the bound: ResultAcyclic, DfsIrredundant, DagUntouched)",
+    "C16": "TLC exhaustive: Position.tla (ExactSpacing, VAlignCentres, PackRightAligns)",
+    "C17": "TLC exhaustive: Position.tla + BKOps (the Brandes-Koepf positioner transcribed statement by statement)",
+}
+UNARY = ["C02", "C03", "C04", "C05", "C06", "C10", "C11", "C12", "C13", "C14", "C16"]
+SLICE = "; every unary predicate is also judged on an all-options slice (random points of C01's whole option space)"
+
 PENDING = {}
 
 
@@ -86,6 +104,14 @@ def main():
         if pid not in CHECKS:
             continue
         tech, text, note, ref = CHECKS[pid]
+        if pid in MODELS:
+            tech += "; " + MODELS[pid]
+        if pid in UNARY:
+            tech += SLICE
+        if pid in UNARY or pid in ("C07", "C08", "C09", "C17"):
+            tech += L23
+        if pid == "C18":
+            tech += "; Apalache: inductive invariant of the monitor life-cycle for histories of any length (MonitorInd.tla); TLC exhaustive: Position.tla + BKOps"
         checks.append({
             "property_id": pid,
             "quick_cmd": "./check %s quick" % pid,
